@@ -372,7 +372,7 @@ def check_property(pid, tier, seed):
     prop = load_prop(pid)
     res = Result()
     known = load_known()
-    kf = {f['id']: f for f in known.get('findings', []) if f['property'] == pid}
+    kf = {f['id']: f for f in known.get('findings', []) if f['property'] == pid or pid in f.get('also', [])}
     ev = {'property_id': pid, 'tier': tier, 'seed': seed, 'level': 'proof', 'coverage': {}, 'assumptions': [],
           'wall_s': 0.0, 'violations': 0}
     cov = ev['coverage']
